@@ -25,6 +25,7 @@ func registerModels(e *Engine) {
 	registerContext(e)
 	registerJSON(e)
 	registerPath(e)
+	registerURL(e)
 }
 
 const modelPkgPath = "github.com/regclient/regclient/internal/zzmodel"
@@ -860,6 +861,8 @@ func registerMisc(e *Engine) {
 	e.on("log/slog.Default", func(fr *Frame, a []Value) Value {
 		return newCell(zero(e.namedType("log/slog", "Logger")))
 	})
+	e.on("log/slog.NewTextHandler", func(fr *Frame, a []Value) Value { return (*Value)(nil) })
+	e.on("log/slog.NewJSONHandler", func(fr *Frame, a []Value) Value { return (*Value)(nil) })
 	e.on("log/slog.New", func(fr *Frame, a []Value) Value {
 		return newCell(zero(e.namedType("log/slog", "Logger")))
 	})
